@@ -1,3 +1,4 @@
+
  /******************************************************************************
  *    This program is free software: you can redistribute it and/or modify     *
  *   it under the terms of the GNU General Public License as published by      *
@@ -15,17 +16,26 @@
  *   Authors:                                                                  *
  *      Carlos Arguelles (University of Wisconsin Madison)                     * 
  *         carguelles@icecube.wisc.edu                                         *
+ *      Christopher Weaver (University of Wisconsin Madison)                   * 
+ *         chris.weaver@icecube.wisc.edu                                       *
  *      Jordi Salvado (University of Wisconsin Madison)                        *
  *         jsalvado@icecube.wisc.edu                                           *
- *      Christopher Weaver (University of Wisconsin Madison)                   * 
- *         cweaver@icecube.wisc.edu                                            *
  ******************************************************************************/
-alpha=2*suv1.components[4];
-SX[0]=sin(alpha*t_mid)*sinc(alpha*half_range);
-CX[0]=cos(alpha*t_mid)*sinc(alpha*half_range);
-alpha=(suv1.components[4] + sqrt(3)*suv1.components[8]);
-SX[1]=sin(alpha*t_mid)*sinc(alpha*half_range);
-CX[1]=cos(alpha*t_mid)*sinc(alpha*half_range);
-alpha=(suv1.components[4] - sqrt(3)*suv1.components[8]);
-SX[2]=sin(alpha*t_mid)*sinc(alpha*half_range);
-CX[2]=cos(alpha*t_mid)*sinc(alpha*half_range);
+
+///\file
+///Library version number constants
+
+#ifndef SQUIDS_VERSION_HPP
+#define SQUIDS_VERSION_HPP
+
+///\brief Machine readable version number
+///
+/// SQUIDS_VERSION / 100000 is the major version \n
+/// SQUIDS_VERSION / 100 % 1000 is the minor version \n
+/// SQUIDS_VERSION % 100 is the patch level
+#define SQUIDS_VERSION 100300
+
+///\brief Human readable version number
+#define SQUIDS_VERSION_STR "1.3.0"
+
+#endif //SQUIDS_VERSION_HPP
